@@ -2,6 +2,7 @@ import PytmeModel.Model.C15
 import PytmeModel.Proofs.C15
 import PytmeModel.Proofs.C15Nd
 import PytmeModel.Proofs.C15Geo
+import PytmeModel.Proofs.C15Cloud
 import Mathlib.Tactic.Ring
 import Mathlib.Tactic.Linarith
 
@@ -243,6 +244,15 @@ theorem broadcastAxes_spec {β : Type} (ndim : Nat) (l r : List β) (x : β) :
     (l ≠ [] → broadcastAxes l.length l = some l) :=
   ⟨broadcastAxes_length ndim l r, broadcastAxes_scalar ndim x, broadcastAxes_full l⟩
 
+/-- **the setters of an existing object skip the constructor's size test**: they store `np.repeat(x, ndim // x.size)` whatever its
+length.  Whenever the constructor would accept the argument the setter stores the same per-axis values; the stored value has one
+entry per axis exactly in those cases, otherwise it has `len·(ndim div len)` entries (an object the box operations cannot use) -/
+theorem setterAxes_spec {β : Type} (ndim : Nat) (l r : List β) :
+    (broadcastAxes ndim l = some r → setterAxes ndim l = some r) ∧
+    (setterAxes ndim l = some r → (r.length = ndim ↔ broadcastAxes ndim l = some r)) ∧
+    (setterAxes ndim l = some r → r.length = l.length * (ndim / l.length)) :=
+  setterAxes_props ndim l r
+
 /-! ## histories -/
 
 /-- **all sequences of operations**: whatever survives a history of box operations (adjust, pad,
@@ -280,6 +290,359 @@ theorem empty_no_alias {γ : Type} [Inhabited γ] (h : Heap γ) (d : DRef) (hwf 
 theorem construct_keeps_data {γ : Type} [Inhabited γ] (h : Heap γ) (a b c e : Nat) :
     (construct h a b c e).2.data = a ∧ (construct h a b c e).2.md = e := by
   simp [construct, Heap.alloc]
+
+/-! ## `to_pointcloud` (deepen3) -/
+
+/-- **`to_pointcloud(threshold)` lists exactly the voxels above the threshold** … -/
+theorem toPointcloud_mem {α : Type} [LT α] [DecidableLT α] (a : Arr α) (thr : α) (idx : List Nat) :
+    idx ∈ toPointcloud a thr ↔ inShape a.shape idx = true ∧ thr < a.getD idx thr :=
+  toPointcloud_mem_iff a thr idx
+
+/-- … each of them once -/
+theorem toPointcloud_nodup {α : Type} [LT α] [DecidableLT α] (a : Arr α) (thr : α) : (toPointcloud a thr).Nodup :=
+  toPointcloud_nodup' a thr
+
+/-- **the point cloud moves with the box**: after `adjust_box` with a pad value that is not above the threshold
+(every box, also negative stops) each point of the new cloud is a point of the old cloud, with the same value, at
+the same physical coordinate `origin + index·rate` -/
+theorem pointcloud_adjust_physical {α β : Type} [LT α] [DecidableLT α] [CommRing β] (d : Dens α β)
+    (hwf : d.data.data.size = prodL d.data.shape) (box : Box) (pad thr : α) (hpad : ¬ thr < pad)
+    (hlen : box.length = d.data.shape.length) (idx : List Nat)
+    (h : idx ∈ toPointcloud (d.adjustBox box pad).data thr) :
+    ∃ s ∈ toPointcloud d.data thr, (d.adjustBox box pad).data.getD idx thr = d.data.getD s thr ∧
+      phys (d.adjustBox box pad).frame idx = phys d.frame s := by
+  obtain ⟨s, hs, hmem, hv⟩ := cloud_adjust_sound d.data hwf box pad thr hpad hlen idx h
+  exact ⟨s, hmem, hv, phys_adjust d.data.shape box d.frame idx s hs⟩
+
+/-- … and conversely every point of the old cloud that lies inside the box is a point of the new cloud, same value,
+same physical coordinate (nothing above the threshold is lost) -/
+theorem pointcloud_adjust_complete {α β : Type} [LT α] [DecidableLT α] [CommRing β] (d : Dens α β)
+    (hwf : d.data.data.size = prodL d.data.shape) (box : Box) (pad thr : α)
+    (hlen : box.length = d.data.shape.length) (hstop : ∀ b ∈ box, 0 ≤ b.2) (s : List Nat)
+    (hs : s ∈ toPointcloud d.data thr)
+    (hbox : List.Forall₂ (fun (x : Nat) (b : Int × Int) => b.1 ≤ (x : Int) ∧ (x : Int) < b.2) s box) :
+    ∃ idx ∈ toPointcloud (d.adjustBox box pad).data thr,
+      (d.adjustBox box pad).data.getD idx thr = d.data.getD s thr ∧
+      phys (d.adjustBox box pad).frame idx = phys d.frame s := by
+  rw [toPointcloud_mem] at hs
+  obtain ⟨idx, h1, h2, h3⟩ := adjustBox_conserves_phys d box pad thr s hlen hstop hs.1 hbox
+  have e : d.data.getD s pad = d.data.getD s thr := getD_default_irrel d.data hwf s hs.1 pad thr
+  refine ⟨idx, ?_, h2.trans e, h3⟩
+  rw [toPointcloud_mem]
+  exact ⟨h1, by rw [h2, e]; exact hs.2⟩
+
+/-- **trimming keeps the whole point cloud**: every point above the cut-off is a point of the cloud of the trimmed
+density, same value, same physical coordinate -/
+theorem pointcloud_trim_complete {α β : Type} [LT α] [DecidableLT α] [CommRing β] (d : Dens α β)
+    (hwf : d.data.data.size = prodL d.data.shape) (cutoff pad : α) (margin : Int) (box : Box) (hm : 0 ≤ margin)
+    (hbox : trimBox d.data cutoff margin = some box) (s : List Nat) (hs : s ∈ toPointcloud d.data cutoff) :
+    ∃ idx ∈ toPointcloud (d.adjustBox box pad).data cutoff,
+      (d.adjustBox box pad).data.getD idx cutoff = d.data.getD s cutoff ∧
+      phys (d.adjustBox box pad).frame idx = phys d.frame s := by
+  have hs' := (toPointcloud_mem d.data cutoff s).mp hs
+  have hw := trimBox_within d.data cutoff margin box hm hbox
+  have hstop : ∀ b ∈ box, 0 ≤ b.2 :=
+    forall₂_right_mem (P := fun b : Int × Int => 0 ≤ b.2) hw (fun n b h => by omega)
+  exact pointcloud_adjust_complete d hwf box pad cutoff (trimBox_length d.data cutoff margin box hbox) hstop s hs
+    (trimBox_contains d.data cutoff margin box s hm hbox hs'.1 hs'.2)
+
+/-- **a growing `pad` keeps the whole point cloud**: for every target shape that is at least the source shape (centred or
+appended) every point of the cloud is found again, same value, same physical coordinate -/
+theorem pointcloud_pad_complete {α β : Type} [LT α] [DecidableLT α] [CommRing β] (d : Dens α β)
+    (hwf : d.data.data.size = prodL d.data.shape) (newShape : List Nat) (center : Bool) (v thr : α)
+    (hg : List.Forall₂ (fun n m => n ≤ m) d.data.shape newShape) (s : List Nat) (hs : s ∈ toPointcloud d.data thr) :
+    ∃ idx ∈ toPointcloud (d.pad newShape center v).data thr,
+      (d.pad newShape center v).data.getD idx thr = d.data.getD s thr ∧
+      phys (d.pad newShape center v).frame idx = phys d.frame s :=
+  pointcloud_adjust_complete d hwf _ v thr (padBox_length center d.data.shape newShape hg.length_eq.symm)
+    (padBox_stop_nonneg center d.data.shape newShape hg) s hs
+    (padBox_contains center d.data.shape newShape hg s ((toPointcloud_mem d.data thr s).mp hs).1)
+
+/-- **the cloud is carried over one to one**: the points of the new cloud are sent to pairwise different points of the old
+cloud (so, with `pointcloud_adjust_complete`, the new cloud is in bijection with the part of the old cloud inside the box) -/
+theorem pointcloud_adjust_injective {α : Type} [LT α] [DecidableLT α] (a : Arr α) (box : Box) (i1 i2 s : List Nat)
+    (h1 : srcIdx (plans a.shape box) i1 = some s) (h2 : srcIdx (plans a.shape box) i2 = some s) : i1 = i2 :=
+  srcIdx_inj _ i1 i2 s h1 h2
+
+/-! ## `empty` and the box bookkeeping of `rigid_transform` (which starts from `self.empty`) -/
+
+/-- **`empty` keeps the box**: same extents, same origin and sampling rate (so every index keeps its physical
+coordinate), every voxel zero; a new object whose data do not depend on the source's values -/
+theorem empty_bookkeeping {α β : Type} [Zero α] [CommRing β] (d : Dens α β) :
+    d.empty.data.shape = d.data.shape ∧ d.empty.frame = d.frame ∧
+    (∀ idx, phys d.empty.frame idx = phys d.frame idx) ∧
+    (∀ idx x, inShape d.data.shape idx = true → d.empty.data.getD idx x = 0) ∧
+    d.empty.data.data.size = prodL d.data.shape :=
+  ⟨rfl, rfl, fun _ => rfl, fun _ _ h => Arr.getD_ofFn _ _ _ _ h, Arr.size_ofFn _ _⟩
+
+/-- the cloud of an empty density is empty -/
+theorem empty_pointcloud {β : Type} (d : Dens Int β) : toPointcloud d.empty.data 0 = [] := by
+  rw [List.eq_nil_iff_forall_not_mem]
+  intro idx h
+  rw [toPointcloud_mem] at h
+  have := Arr.getD_ofFn d.data.shape idx (fun _ => (0 : Int)) 0 h.1
+  have h2 := h.2
+  simp only [Dens.empty] at h2
+  rw [this] at h2
+  exact absurd h2 (by decide)
+
+/-! ## `center_of_mass` (integer data: exact fractions `comNum / comDen`) -/
+
+/-- **cut-off semantics**: a voxel weighs its value if that is above the cut-off, else nothing; without a cut-off
+every voxel weighs its value -/
+theorem com_cutoff_semantics (a : Arr Int) (c : Int) (idx : List Nat) :
+    comW a (some c) idx = (if c < a.getD idx 0 then a.getD idx 0 else 0) ∧ comW a none idx = a.getD idx 0 :=
+  ⟨rfl, rfl⟩
+
+/-- with a cut-off the sums run over the point cloud: `denominator = Σ_{p ∈ to_pointcloud(c)} data[p]`,
+`numerator_ax = Σ_{p ∈ to_pointcloud(c)} data[p]·p[ax]` -/
+theorem com_eq_cloud_sums (a : Arr Int) (hwf : a.data.size = prodL a.shape) (c : Int) (ax : Nat) :
+    comDen a (some c) = ((toPointcloud a c).map (fun p => a.getD p 0)).sum ∧
+    comNum a (some c) ax = ((toPointcloud a c).map (fun p => a.getD p 0 * ((p.getD ax 0 : Nat) : Int))).sum := by
+  have hf : toPointcloud a c = (allIdx a.shape).filter (fun idx => decide (c < a.getD idx 0)) := by
+    unfold toPointcloud
+    refine List.filter_congr ?_
+    intro x hx
+    rw [getD_default_irrel a hwf x ((mem_allIdx_iff _ _).mp hx) c 0]
+  constructor
+  · unfold comDen
+    rw [sum_map_filter_zero (allIdx a.shape) (fun idx => decide (c < a.getD idx 0)) (comW a (some c))
+          (by intro x _ hx; simp only [decide_eq_false_iff_not] at hx; simp [comW, comV, hx]), hf]
+    congr 1
+    refine List.map_congr_left ?_
+    intro x hx
+    have := (List.mem_filter.mp hx).2
+    simp only [decide_eq_true_eq] at this
+    simp [comW, comV, this]
+  · unfold comNum
+    rw [sum_map_filter_zero (allIdx a.shape) (fun idx => decide (c < a.getD idx 0))
+          (fun idx => comW a (some c) idx * ((idx.getD ax 0 : Nat) : Int))
+          (by intro x _ hx; simp only [decide_eq_false_iff_not] at hx; simp [comW, comV, hx]), hf]
+    congr 1
+    refine List.map_congr_left ?_
+    intro x hx
+    have := (List.mem_filter.mp hx).2
+    simp only [decide_eq_true_eq] at this
+    simp [comW, comV, this]
+
+/-- **covariance of the centre of mass under `adjust_box`** (hence `pad`, trimming): when the pad value weighs
+nothing and every voxel that weighs lies inside the box, the denominator is unchanged and every numerator moves by
+`start·denominator` — the centre of mass in voxels moves by exactly `-start` -/
+theorem com_adjust_covariant (a : Arr Int) (hwf : a.data.size = prodL a.shape) (box : Box) (pad : Int)
+    (cutoff : Option Int) (hlen : box.length = a.shape.length) (hstop : ∀ b ∈ box, 0 ≤ b.2)
+    (hpad : comV cutoff pad = 0)
+    (hsupp : ∀ s, inShape a.shape s = true → comW a cutoff s ≠ 0 →
+      List.Forall₂ (fun (x : Nat) (b : Int × Int) => b.1 ≤ (x : Int) ∧ (x : Int) < b.2) s box) :
+    comDen (adjustData a box pad) cutoff = comDen a cutoff ∧
+    ∀ ax, ax < box.length →
+      comNum (adjustData a box pad) cutoff ax = comNum a cutoff ax - (box.getD ax (0, 0)).1 * comDen a cutoff := by
+  have hden := sum_adjust a hwf box pad cutoff hlen hstop hpad hsupp (fun _ => 1) (fun _ => 1) (fun _ _ _ => rfl)
+  simp only [mul_one] at hden
+  refine ⟨hden, ?_⟩
+  intro ax hax
+  have hnum := sum_adjust a hwf box pad cutoff hlen hstop hpad hsupp
+    (fun s => ((s.getD ax 0 : Nat) : Int) - (box.getD ax (0, 0)).1) (fun idx => ((idx.getD ax 0 : Nat) : Int))
+    (fun idx s h => by have := srcIdx_getD a.shape box idx s ax hlen h hax; omega)
+  unfold comNum comDen
+  rw [hnum]
+  exact sum_map_mul_sub _ _ _ _
+
+/-- **the physical centre of mass is unchanged**: with the origin `o' = o + start·rate` that `adjust_box` records,
+`den·(o' + com'·rate) = den·(o + com·rate)` on every axis, over every commutative ring of coordinates -/
+theorem com_adjust_physical {β : Type} [CommRing β] (a : Arr Int) (hwf : a.data.size = prodL a.shape) (box : Box)
+    (pad : Int) (cutoff : Option Int) (hlen : box.length = a.shape.length) (hstop : ∀ b ∈ box, 0 ≤ b.2)
+    (hpad : comV cutoff pad = 0)
+    (hsupp : ∀ s, inShape a.shape s = true → comW a cutoff s ≠ 0 →
+      List.Forall₂ (fun (x : Nat) (b : Int × Int) => b.1 ≤ (x : Int) ∧ (x : Int) < b.2) s box)
+    (ax : Nat) (hax : ax < box.length) (o r : β) :
+    (o + (((box.getD ax (0, 0)).1 : Int) : β) * r) * ((comDen (adjustData a box pad) cutoff : Int) : β) +
+        ((comNum (adjustData a box pad) cutoff ax : Int) : β) * r =
+      o * ((comDen a cutoff : Int) : β) + ((comNum a cutoff ax : Int) : β) * r := by
+  obtain ⟨h1, h2⟩ := com_adjust_covariant a hwf box pad cutoff hlen hstop hpad hsupp
+  rw [h1, h2 ax hax]
+  push_cast
+  ring
+
+/-- trimming at the cut-off of the centre of mass never moves it: the trim box contains every voxel that weighs -/
+theorem com_trim_covariant (a : Arr Int) (hwf : a.data.size = prodL a.shape) (c pad : Int) (margin : Int) (box : Box)
+    (hm : 0 ≤ margin) (hbox : trimBox a c margin = some box) (hpad : comV (some c) pad = 0) :
+    comDen (adjustData a box pad) (some c) = comDen a (some c) ∧
+    ∀ ax, ax < box.length →
+      comNum (adjustData a box pad) (some c) ax = comNum a (some c) ax - (box.getD ax (0, 0)).1 * comDen a (some c) := by
+  have hw := trimBox_within a c margin box hm hbox
+  have hstop : ∀ b ∈ box, 0 ≤ b.2 :=
+    forall₂_right_mem (P := fun b : Int × Int => 0 ≤ b.2) hw (fun n b h => by omega)
+  refine com_adjust_covariant a hwf box pad (some c) (trimBox_length a c margin box hbox) hstop hpad ?_
+  intro s hs hne
+  refine trimBox_contains a c margin box s hm hbox hs ?_
+  rw [getD_default_irrel a hwf s hs c 0]
+  by_contra hlt
+  exact hne (by simp [comW, comV, hlt])
+
+/-- **growing `pad` (centred or appended) never moves the centre of mass**: for every target shape that is at least the
+source shape and a padding value that weighs nothing, the denominator is unchanged and the numerators move by
+`start·denominator`, `start` the (non-positive) start of the box `pad` hands to `adjust_box` -/
+theorem com_pad_covariant (a : Arr Int) (hwf : a.data.size = prodL a.shape) (newShape : List Nat) (center : Bool)
+    (v : Int) (cutoff : Option Int) (hg : List.Forall₂ (fun n m => n ≤ m) a.shape newShape) (hpad : comV cutoff v = 0) :
+    let box := Dens.padBox center a.shape newShape
+    comDen (adjustData a box v) cutoff = comDen a cutoff ∧
+    ∀ ax, ax < box.length →
+      comNum (adjustData a box v) cutoff ax = comNum a cutoff ax - (box.getD ax (0, 0)).1 * comDen a cutoff :=
+  com_adjust_covariant a hwf _ v cutoff (padBox_length center a.shape newShape hg.length_eq.symm)
+    (padBox_stop_nonneg center a.shape newShape hg) hpad
+    (fun s hs _ => padBox_contains center a.shape newShape hg s hs)
+
+/-- **the point cloud through a whole history**: a point of the cloud of the final density that is traced to a voxel of
+the initial density is a point of the initial cloud, and sits at the same physical coordinate (any sequence of adjust /
+pad / trim / copy) -/
+theorem pointcloud_history {α β : Type} [LT α] [DecidableLT α] [CommRing β]
+    (ops : List (Op α)) (d d' : Dens α β) (idx idx0 : List Nat) (thr : α)
+    (hwf : d.data.data.size = prodL d.data.shape)
+    (hrun : runFrom d ops = some d') (htr : traceFrom d ops idx = some idx0)
+    (h : idx ∈ toPointcloud d'.data thr) :
+    idx0 ∈ toPointcloud d.data thr ∧ phys d'.frame idx = phys d.frame idx0 := by
+  rw [toPointcloud_mem] at h
+  obtain ⟨h1, h2, h3⟩ := history_physical ops d d' idx idx0 thr hwf hrun htr h.1
+  refine ⟨?_, h2⟩
+  rw [toPointcloud_mem]
+  exact ⟨h3, by rw [← h1]; exact h.2⟩
+
+/-! ## `core_mask` -/
+
+/-- **`core_mask` is aligned with the data**: it has the extents of the data (so index `i` of the mask sits at the physical
+coordinate of index `i` of the data) and is positive exactly on the voxels with `data > 0` -/
+theorem coreMask_aligned (a : Arr Int) :
+    (coreMask a).shape = a.shape ∧
+    ∀ idx, inShape a.shape idx = true → (0 < (coreMask a).getD idx 0 ↔ 0 < a.getD idx 0) := by
+  refine ⟨coreLoop_shape _ _ _, ?_⟩
+  intro idx hin
+  obtain ⟨_, h2, h3⟩ := coreLoop_spec (prodL a.shape + 1) (Arr.ofFn a.shape (fun idx => decide (0 < a.getD idx 0)))
+    (Arr.ofFn a.shape (fun _ => 0)) rfl idx hin
+  have e0 : (Arr.ofFn a.shape (fun _ => (0 : Nat))).getD idx 0 = 0 := Arr.getD_ofFn _ _ _ _ hin
+  have em : (Arr.ofFn a.shape (fun idx => decide (0 < a.getD idx 0))).getD idx false = decide (0 < a.getD idx 0) :=
+    Arr.getD_ofFn _ _ _ _ hin
+  rw [e0, em] at h2 h3
+  unfold coreMask
+  constructor
+  · intro h; simpa using h2 h
+  · intro h; exact h3 (Nat.succ_pos _) (by simpa using h)
+
+/-- every round of the loop only adds: a voxel that survives a further erosion was in the mask before (erosion shrinks) -/
+theorem erode_shrinks (m : Arr Bool) (idx : List Nat) (hin : inShape m.shape idx = true)
+    (h : (erode m).getD idx false = true) : m.getD idx false = true :=
+  erode_sub m idx hin h
+
+/-- **`core_mask` counts the erosions a voxel survives, and the bound on the number of rounds never cuts the count short**
+(ranks ≥ 1): the value is the number of `k` — among the first `K` for *every* `K` beyond the number of voxels — such that the
+voxel is still in the mask after `k` erosions of `data > 0` -/
+theorem coreMask_counts (a : Arr Int) (idx : List Nat) (hin : inShape a.shape idx = true) (hrank : 0 < a.shape.length)
+    (K : Nat) (hK : prodL a.shape + 1 ≤ K) :
+    (coreMask a).getD idx 0 =
+      ((List.range K).filter (fun k =>
+        (erode^[k] (Arr.ofFn a.shape (fun i => decide (0 < a.getD i 0)))).getD idx false)).length := by
+  have hc := coreLoop_count (prodL a.shape + 1) (Arr.ofFn a.shape (fun i => decide (0 < a.getD i 0)))
+    (Arr.ofFn a.shape (fun _ => 0)) rfl idx hin
+  have e0 : (Arr.ofFn a.shape (fun _ => (0 : Nat))).getD idx 0 = 0 := Arr.getD_ofFn _ _ _ _ hin
+  rw [e0, Nat.zero_add] at hc
+  unfold coreMask
+  rw [hc]
+  refine (filter_range_stable _ (prodL a.shape + 1) ?_ K hK).symm
+  intro k hk
+  cases hp : (erode^[k] (Arr.ofFn a.shape (fun i => decide (0 < a.getD i 0)))).getD idx false with
+  | false => rfl
+  | true =>
+    exfalso
+    have hb := iter_erode_border k (Arr.ofFn a.shape (fun i => decide (0 < a.getD i 0))) idx 0 hrank hp
+    cases hs : a.shape with
+    | nil => rw [hs] at hrank; simp at hrank
+    | cons n ns =>
+      have hle := first_le_prodL n ns idx (by rw [← hs]; exact hin)
+      have hb2 : idx.getD 0 0 + k < n := by
+        have := hb.2
+        simpa [Arr.ofFn, hs] using this
+      rw [hs] at hk
+      omega
+
+/-- a voxel survives at most as many erosions as it is away from the nearer end of any axis (plus one): the mask never exceeds
+the distance to the border of the box -/
+theorem coreMask_le_border (a : Arr Int) (idx : List Nat) (hin : inShape a.shape idx = true) (ax : Nat)
+    (hax : ax < a.shape.length) :
+    (coreMask a).getD idx 0 ≤ min (idx.getD ax 0 + 1) (a.shape.getD ax 0 - idx.getD ax 0) := by
+  have hc := coreLoop_count (prodL a.shape + 1) (Arr.ofFn a.shape (fun i => decide (0 < a.getD i 0)))
+    (Arr.ofFn a.shape (fun _ => 0)) rfl idx hin
+  have e0 : (Arr.ofFn a.shape (fun _ => (0 : Nat))).getD idx 0 = 0 := Arr.getD_ofFn _ _ _ _ hin
+  rw [e0, Nat.zero_add] at hc
+  unfold coreMask
+  rw [hc]
+  refine filter_range_length_le _ _ ?_ _
+  intro k hp
+  have hb := iter_erode_border k (Arr.ofFn a.shape (fun i => decide (0 < a.getD i 0))) idx ax hax hp
+  have h2 : idx.getD ax 0 + k < a.shape.getD ax 0 := hb.2
+  omega
+
+/-- **`core_mask` moves with a box that only adds zeros** (`adjust_box` with non-positive starts and stops at or beyond the
+data, hence every growing `pad`; library default pad value 0): the mask of the padded density holds, at every voxel, the old
+mask's value of the voxel with the same physical coordinate (`pointcloud_adjust_physical` / `adjustBox_physical_nd`: the source
+index has the same `origin + index·rate`), and 0 on the added voxels -/
+theorem coreMask_zero_pad (a : Arr Int) (box : Box) (hrank : 0 < a.shape.length)
+    (hext : List.Forall₂ (fun (n : Nat) (b : Int × Int) => b.1 ≤ 0 ∧ (n : Int) ≤ b.2) a.shape box)
+    (idx : List Nat) (hin : inShape (adjustData a box 0).shape idx = true) :
+    (coreMask (adjustData a box 0)).getD idx 0 =
+      match srcIdx (plans a.shape box) idx with
+      | some s => (coreMask a).getD s 0
+      | none => 0 := by
+  have hlen : box.length = a.shape.length := hext.length_eq.symm
+  have hps := plans_extending a.shape box hext
+  -- the masks `data > 0` correspond
+  have R0 : ∀ i, (Arr.ofFn (adjustData a box 0).shape (fun i => decide (0 < (adjustData a box 0).getD i 0))).getD i false =
+      embB (Arr.ofFn a.shape (fun i => decide (0 < a.getD i 0))) (plans a.shape box) i := by
+    intro i
+    by_cases hi : inShape (adjustData a box 0).shape i = true
+    · rw [Arr.getD_ofFn _ _ _ _ hi, adjustData_getD a box 0 0 i hi]
+      unfold embB
+      cases hs : srcIdx (plans a.shape box) i with
+      | none => simp [readSrc]
+      | some s =>
+        have hsin := srcIdx_inShape a.shape box i s hlen hs
+        simp only [readSrc]
+        exact (Arr.getD_ofFn a.shape s (fun i => decide (0 < a.getD i 0)) false hsin).symm
+    · have h1 : (Arr.ofFn (adjustData a box 0).shape (fun i => decide (0 < (adjustData a box 0).getD i 0))).getD i false = false :=
+        getD_out _ i false (by show inShape (adjustData a box 0).shape i = false; simpa using hi)
+      rw [h1]
+      unfold embB
+      cases hs : srcIdx (plans a.shape box) i with
+      | none => rfl
+      | some s => exact absurd (srcIdx_new_inShape _ i s hs) hi
+  have Rk := fun k => iter_erode_emb a.shape (plans a.shape box) hps _ _ rfl rfl R0 k idx
+  have hrank' : 0 < (adjustData a box 0).shape.length := by
+    show 0 < ((plans a.shape box).map AxisPlan.newLen).length
+    rw [List.length_map, ← hps.length_eq]; exact hrank
+  rw [coreMask_counts (adjustData a box 0) idx hin hrank'
+        (max (prodL (adjustData a box 0).shape + 1) (prodL a.shape + 1)) (Nat.le_max_left _ _)]
+  simp only [Rk]
+  cases hs : srcIdx (plans a.shape box) idx with
+  | none => simp [embB, hs]
+  | some s =>
+    have hsin := srcIdx_inShape a.shape box idx s hlen hs
+    show _ = (coreMask a).getD s 0
+    rw [coreMask_counts a s hsin hrank
+        (max (prodL (adjustData a box 0).shape + 1) (prodL a.shape + 1)) (Nat.le_max_right _ _)]
+    simp [embB, hs]
+
+/-! ## `to_memmap` / `to_numpy` -/
+
+/-- **`to_memmap` / `to_numpy` change nothing but where the data live**: equal content in a buffer that is not one
+of the source's, `origin`, `sampling_rate`, `metadata` the very same objects with unchanged content; a no-op when the
+data already are of the requested kind -/
+theorem remap_keeps {γ : Type} [Inhabited γ] (h : Heap γ) (d : DRef) (fresh : Bool)
+    (hwf : ∀ r ∈ d.refs, r < h.cells.length) :
+    let r := (remapD h d fresh).2
+    let h' := (remapD h d fresh).1
+    (r.origin = d.origin ∧ r.rate = d.rate ∧ r.md = d.md) ∧
+    h'.read r.data = h.read d.data ∧
+    (∀ s ∈ d.refs, h'.read s = h.read s) ∧
+    (fresh = true → ∀ s ∈ d.refs, r.data ≠ s) ∧ (fresh = false → r = d ∧ h'.cells = h.cells) :=
+  remapD_spec h d fresh hwf
 
 /-! ## non-vacuity -/
 example : adjustAxis 8 (-2) 5 = ⟨0, 5, 2, 0⟩ ∧ (adjustAxis 8 (-2) 5).newLen = 7 := by decide
@@ -342,5 +705,92 @@ example :
 
 /-- well-formedness hypothesis of `copy_no_alias` is satisfiable -/
 example : ∀ r ∈ (⟨0, 1, 2, 3⟩ : DRef).refs, r < (⟨[10, 11, 12, 13]⟩ : Heap Nat).cells.length := by decide
+
+/-! ### non-vacuity of the deepen3 theorems -/
+example : toPointcloud (⟨[2,3], #[0,1,0,0,5,0]⟩ : Arr Int) 0 = [[0,1],[1,1]] ∧
+    toPointcloud (⟨[2,3], #[0,1,0,0,5,0]⟩ : Arr Int) 1 = [[1,1]] := by decide
+/-- hypotheses of `pointcloud_adjust_physical` / `_complete` are satisfiable: a 2×3 density with anisotropic rates and a
+negative origin, a box with a negative start and a stop beyond the data -/
+example :
+    let d : Dens Int Int := ⟨⟨[2,3], #[0,1,0,0,5,0]⟩, [(-10, 2), (20, 3)]⟩
+    d.data.data.size = prodL d.data.shape ∧ ¬ (0 : Int) < 0 ∧
+    toPointcloud (d.adjustBox [(-1, 2), (1, 5)] 0).data 0 = [[1,0],[2,0]] ∧
+    phys (d.adjustBox [(-1, 2), (1, 5)] 0).frame [2,0] = phys d.frame [1,1] ∧
+    [1,1] ∈ toPointcloud d.data 0 := by decide
+example :
+    let d : Dens Int Int := ⟨⟨[2,3], #[0,1,0,0,5,0]⟩, [(-10, 2), (20, 3)]⟩
+    trimBox d.data 0 0 = some [(0,2),(1,2)] ∧ toPointcloud (d.adjustBox [(0,2),(1,2)] 0).data 0 = [[0,0],[1,0]] := by decide
+example :
+    let d : Dens Int Int := ⟨⟨[2,3], #[0,1,0,0,5,0]⟩, [(-10, 2), (20, 3)]⟩
+    d.empty.data.toList = [0,0,0,0,0,0] ∧ d.empty.frame = [(-10, 2), (20, 3)] := by decide
+example : centerOfMass (⟨[2,3], #[0,1,0,0,5,0]⟩ : Arr Int) none = ([5, 6], 6) ∧
+    centerOfMass (⟨[2,3], #[0,1,0,0,5,0]⟩ : Arr Int) (some 1) = ([5, 5], 5) ∧
+    centerOfMass (⟨[3], #[-2,1,4]⟩ : Arr Int) none = ([9], 3) ∧ centerOfMass (⟨[3], #[-2,1,4]⟩ : Arr Int) (some 0) = ([9], 5) := by decide
+/-- hypotheses of `com_adjust_covariant` are satisfiable (box with negative start that cuts zeros away): the numerators move by
+`start·den` -/
+example :
+    let a : Arr Int := ⟨[2,3], #[0,1,0,0,5,0]⟩
+    comV (some 0) 0 = 0 ∧ centerOfMass (adjustData a [(-1, 2), (1, 5)] 0) (some 0) = ([5 + 1 * 6, 6 - 1 * 6], 6) := by decide
+example :
+    let a : Arr Int := ⟨[2,3], #[0,1,0,0,5,0]⟩
+    ∀ s, inShape a.shape s = true → comW a (some 0) s ≠ 0 →
+      List.Forall₂ (fun (x : Nat) (b : Int × Int) => b.1 ≤ (x : Int) ∧ (x : Int) < b.2) s [(-1, 2), (1, 5)] := by
+  intro a s hs hne
+  have hm := (mem_allIdx_iff a.shape s).mpr hs
+  have : allIdx a.shape = [[0,0],[0,1],[0,2],[1,0],[1,1],[1,2]] := by decide
+  rw [this] at hm
+  simp only [List.mem_cons, List.not_mem_nil, or_false] at hm
+  rcases hm with rfl | rfl | rfl | rfl | rfl | rfl
+  · exact absurd (by decide) hne
+  · exact List.Forall₂.cons ⟨by decide, by decide⟩ (List.Forall₂.cons ⟨by decide, by decide⟩ List.Forall₂.nil)
+  · exact absurd (by decide) hne
+  · exact absurd (by decide) hne
+  · exact List.Forall₂.cons ⟨by decide, by decide⟩ (List.Forall₂.cons ⟨by decide, by decide⟩ List.Forall₂.nil)
+  · exact absurd (by decide) hne
+example : (remapD (⟨[10,11,12,13]⟩ : Heap Nat) ⟨0,1,2,3⟩ true).2 = ⟨4,1,2,3⟩ ∧
+    (remapD (⟨[10,11,12,13]⟩ : Heap Nat) ⟨0,1,2,3⟩ false).2 = ⟨0,1,2,3⟩ := by decide
+
+/-- hypotheses of `com_pad_covariant` are satisfiable: centred padding of a 2×3 array to 5×4 -/
+example :
+    let a : Arr Int := ⟨[2,3], #[0,1,0,0,5,0]⟩
+    List.Forall₂ (fun n m => n ≤ m) a.shape [5, 4] ∧ Dens.padBox true a.shape [5, 4] = [(-1, 4), (0, 4)] ∧
+    centerOfMass (adjustData a (Dens.padBox true a.shape [5, 4]) 0) none = ([5 + 1 * 6, 6], 6) := by
+  refine ⟨List.Forall₂.cons (by decide) (List.Forall₂.cons (by decide) List.Forall₂.nil), by decide, by decide⟩
+/-- … and of `pointcloud_history` -/
+example :
+    let d : Dens Int Int := ⟨⟨[4], #[1,2,3,4]⟩, [(0, 1)]⟩
+    let ops : List (Op Int) := [.adjust [(-1, 3)] 0, .pad [7] true (-1), .trim 1 0 0]
+    (runFrom d ops).map (fun r => toPointcloud r.data 2) = some [[1]] ∧ traceFrom d ops [1] = some [2] ∧
+    [2] ∈ toPointcloud d.data 2 := by decide
+
+example : (coreMask (⟨[7], #[1,1,1,1,1,1,1]⟩ : Arr Int)).toList = [1,2,3,4,3,2,1] ∧
+    (coreMask (⟨[3,3], #[2,5,1, 1,3,1, 0,1,-4]⟩ : Arr Int)).toList = [1,1,1, 1,2,1, 0,1,0] ∧
+    (coreMask (⟨[3,3], #[2,5,1, 1,3,1, 7,1,4]⟩ : Arr Int)).toList = [1,1,1, 1,2,1, 1,1,1] := by decide
+example : (erode (⟨[5], #[true,true,true,false,true]⟩ : Arr Bool)).toList = [false,true,false,false,false] := by decide
+
+/-- hypotheses of `pointcloud_pad_complete`: appended padding of a 2×3 density to 4×3 -/
+example :
+    let d : Dens Int Int := ⟨⟨[2,3], #[0,1,0,0,5,0]⟩, [(-10, 2), (20, 3)]⟩
+    List.Forall₂ (fun n m => n ≤ m) d.data.shape [4, 3] ∧ toPointcloud (d.pad [4, 3] false 0).data 0 = [[0,1],[1,1]] ∧
+    toPointcloud (d.pad [5, 5] true 0).data 0 = [[1,2],[2,2]] ∧ phys (d.pad [5, 5] true 0).frame [1,2] = phys d.frame [0,1] := by
+  refine ⟨List.Forall₂.cons (by decide) (List.Forall₂.cons (by decide) List.Forall₂.nil), by decide, by decide, by decide⟩
+example : srcIdx (plans [2,3] [(-1, 2), (1, 5)]) [1,0] = some [0,1] ∧ srcIdx (plans [2,3] [(-1, 2), (1, 5)]) [2,0] = some [1,1] := by decide
+
+/-- `coreMask_counts` / `coreMask_le_border` on a 1-D array of 7: the middle voxel survives 4 rounds = distance to the border + 1 -/
+example :
+    let a : Arr Int := ⟨[7], #[1,1,1,1,1,1,1]⟩
+    inShape a.shape [3] = true ∧ 0 < a.shape.length ∧ (coreMask a).getD [3] 0 = 4 ∧
+    min (([3] : List Nat).getD 0 0 + 1) (a.shape.getD 0 0 - ([3] : List Nat).getD 0 0) = 4 := by decide
+
+/-- hypotheses of `coreMask_zero_pad`: a 1-D array of 5 padded by one voxel in front and two behind -/
+example :
+    let a : Arr Int := ⟨[5], #[1,1,1,1,1]⟩
+    List.Forall₂ (fun (n : Nat) (b : Int × Int) => b.1 ≤ 0 ∧ (n : Int) ≤ b.2) a.shape [(-1, 7)] ∧
+    (coreMask (adjustData a [(-1, 7)] 0)).toList = [0,1,2,3,2,1,0,0] ∧ (coreMask a).toList = [1,2,3,2,1] ∧
+    srcIdx (plans a.shape [(-1, 7)]) [3] = some [2] := by
+  refine ⟨List.Forall₂.cons (by decide) List.Forall₂.nil, by decide, by decide, by decide⟩
+
+example : setterAxes 3 [(7 : Int)] = some [7,7,7] ∧ setterAxes 3 [(1 : Int), 2] = some [1, 2] ∧ broadcastAxes 3 [(1 : Int), 2] = none ∧
+    setterAxes 3 ([] : List Int) = none ∧ setterAxes 2 [(1 : Int), 2, 3] = some [] ∧ setterAxes 4 [(1 : Int), 2] = some [1,1,2,2] := by decide
 
 end Pm.C15
